@@ -155,35 +155,105 @@ func (d *drv) nextID() int64 {
 	return int64(n)
 }
 
-func (d *drv) hasPrefix(p []byte) bool {
-	it := storetypes.KVStorePrefixIterator(d.store(), p)
-	defer it.Close()
-	return it.Valid()
+// key prefixes (taken once from the exported key constructors: they rebuild the prefix table on every call)
+var (
+	pChannel    = providertypes.ConsumerIdToChannelIdKey("")[0]
+	pChanToCons = providertypes.ChannelIdToConsumerIdKeyPrefix()[0]
+	pClient     = providertypes.ConsumerIdToClientIdKeyPrefix()[0]
+	pGenesis    = providertypes.ConsumerGenesisKey("")[0]
+	pSlashAcks  = providertypes.SlashAcksKey("")[0]
+	pInitHeight = providertypes.InitChainHeightKey("")[0]
+	pPending    = providertypes.PendingVSCsKey("")[0]
+	pEvMin      = providertypes.EquivocationEvidenceMinHeightKey("")[0]
+	pValset     = providertypes.ConsumerValidatorKeyPrefix()
+	pOptedIn    = providertypes.OptedInKeyPrefix()
+	pClientRev  = providertypes.ClientIdToConsumerIdKey("")[0]
+	pSpawnQ     = providertypes.SpawnTimeToConsumerIdsKeyPrefix()
+	pRemovalQ   = providertypes.RemovalTimeToConsumerIdsKeyPrefix()
+	// keys of the form prefix | consumer id (no length field)
+	legacyPrefixes = map[byte]bool{pChannel: true, pClient: true, pGenesis: true, pSlashAcks: true, pInitHeight: true,
+		pPending: true, pEvMin: true}
+	// prefixes that are not per consumer (parameters, port, vsc id, slash meter, vsc heights, slash log, reward denoms,
+	// provider consensus set, consumer id counter, infraction schedule)
+	globalPrefixes = map[byte]bool{0xFF: true, 0: true, 2: true, 3: true, 4: true, 13: true, 26: true, 27: true, 42: true,
+		43: true, 59: true}
+	// the per-consumer records written by other sub-protocols
+	extraPrefixes = []int64{15, 22, 23, 36, 37, 39, 40, 41, 56}
+)
+
+// scan is one pass over the raw provider store.
+type scan struct {
+	keys    []map[int64]int // per consumer: prefix byte -> number of keys attributed to the consumer
+	optin   [][]int64       // per consumer: opted-in validators
+	spawnq  []common.T
+	remq    []common.T
+	unknown bool // a key that cannot be attributed to a consumer or to the global state
 }
 
-// the per-consumer records written by other sub-protocols, by store prefix byte
-var extraLenPrefixed = []byte{22, 23, 36, 37, 39, 40, 41, 56}
+func decQueueEntry(prefix byte, key, val []byte) common.T {
+	ts, err := providertypes.ParseTime(prefix, key)
+	if err != nil {
+		panic(err)
+	}
+	var ids providertypes.ConsumerIds
+	if err := ids.Unmarshal(val); err != nil {
+		panic(err)
+	}
+	l := make([]int64, len(ids.Ids))
+	for i, s := range ids.Ids {
+		l[i], _ = strconv.ParseInt(s, 10, 64)
+	}
+	return common.L(fromTime(ts), common.Ints(l))
+}
 
-func (d *drv) queue(prefix byte) common.T {
-	out := []common.T{}
-	it := storetypes.KVStorePrefixIterator(d.store(), []byte{prefix})
+func (d *drv) scanStore() *scan {
+	n := d.nextID()
+	sc := &scan{keys: make([]map[int64]int, n), optin: make([][]int64, n), spawnq: []common.T{}, remq: []common.T{}}
+	for c := range sc.keys {
+		sc.keys[c] = map[int64]int{}
+		sc.optin[c] = []int64{}
+	}
+	attribute := func(idStr string, p byte) int64 {
+		c, err := strconv.ParseInt(idStr, 10, 64)
+		if err != nil || c < 0 || c >= n || cid(c) != idStr {
+			sc.unknown = true
+			return -1
+		}
+		sc.keys[c][int64(p)]++
+		return c
+	}
+	it := d.store().Iterator(nil, nil)
 	defer it.Close()
 	for ; it.Valid(); it.Next() {
-		ts, err := providertypes.ParseTime(prefix, it.Key())
-		if err != nil {
-			panic(err)
+		kb, val := it.Key(), it.Value()
+		p := kb[0]
+		switch {
+		case p == pSpawnQ:
+			sc.spawnq = append(sc.spawnq, decQueueEntry(p, kb, val))
+		case p == pRemovalQ:
+			sc.remq = append(sc.remq, decQueueEntry(p, kb, val))
+		case globalPrefixes[p]:
+		case p == pChanToCons, p == pClientRev:
+			attribute(string(val), p) // reverse indexes: the value is the consumer id
+		case legacyPrefixes[p]:
+			attribute(string(kb[1:]), p)
+		case len(kb) >= 9:
+			id, err := providertypes.ParseStringIdWithLenKey(p, kb)
+			if err != nil {
+				sc.unknown = true
+				break
+			}
+			c := attribute(id, p)
+			if c >= 0 && p == pOptedIn {
+				if _, addr, err := providertypes.ParseStringIdAndConsAddrKey(p, kb); err == nil {
+					sc.optin[c] = append(sc.optin[c], d.valIndex(addr))
+				}
+			}
+		default:
+			sc.unknown = true
 		}
-		var ids providertypes.ConsumerIds
-		if err := ids.Unmarshal(it.Value()); err != nil {
-			panic(err)
-		}
-		l := make([]int64, len(ids.Ids))
-		for i, s := range ids.Ids {
-			l[i], _ = strconv.ParseInt(s, 10, 64)
-		}
-		out = append(out, common.L(fromTime(ts), common.Ints(l)))
 	}
-	return out
+	return sc
 }
 
 func (d *drv) sentOn(ch string) int64 {
@@ -205,11 +275,13 @@ func (d *drv) valIndex(consAddr []byte) int64 {
 	return -1
 }
 
+// observe: phase, spawn time, removal time, client, channel and pending packets through the keeper's getters;
+// genesis / evidence height / validator set / opt-ins / other records and both time queues from one raw store scan.
 func (d *drv) observe(code int64) common.T {
 	ctx, k := d.env.Ctx, d.env.K
 	n := d.nextID()
+	sc := d.scanStore()
 	cons := make([]common.T, 0, n)
-	st := d.store()
 	for c := int64(0); c < n; c++ {
 		id := cid(c)
 		spawn := int64(-1)
@@ -221,94 +293,35 @@ func (d *drv) observe(code int64) common.T {
 			removal = fromTime(t)
 		}
 		_, client := k.GetConsumerClientId(ctx, id)
-		_, genesis := k.GetConsumerGenesis(ctx, id)
-		evmin := st.Has(providertypes.EquivocationEvidenceMinHeightKey(id))
 		_, channel := k.GetConsumerIdToChannelId(ctx, id)
-		vs, err := k.GetConsumerValSet(ctx, id)
-		if err != nil {
-			panic(err)
-		}
-		optin := []int64{}
-		for _, a := range k.GetAllOptedIn(ctx, id) {
-			optin = append(optin, d.valIndex(a.Address))
-		}
+		keys := sc.keys[c]
+		optin := sc.optin[c]
 		sort.Slice(optin, func(i, j int) bool { return optin[i] < optin[j] })
 		extra := []int64{}
-		if st.Has(providertypes.SlashAcksKey(id)) {
-			extra = append(extra, 15)
-		}
-		for _, p := range extraLenPrefixed {
-			if d.hasPrefix(providertypes.StringIdWithLenKey(p, id)) {
-				extra = append(extra, int64(p))
+		for _, p := range extraPrefixes {
+			if keys[p] > 0 {
+				extra = append(extra, p)
 			}
 		}
-		sort.Slice(extra, func(i, j int) bool { return extra[i] < extra[j] })
 		cons = append(cons, common.L(c, int64(k.GetConsumerPhase(ctx, id)), spawn, removal,
-			common.B(client), common.B(genesis), common.B(evmin), common.B(channel),
-			int64(len(vs)), int64(len(k.GetPendingVSCPackets(ctx, id))), d.sentOn(chanID(c)),
+			common.B(client), common.B(keys[int64(pGenesis)] > 0), common.B(keys[int64(pEvMin)] > 0), common.B(channel),
+			int64(keys[int64(pValset)]), int64(len(k.GetPendingVSCPackets(ctx, id))), d.sentOn(chanID(c)),
 			common.Ints(optin), common.Ints(extra)))
 	}
-	return common.L(code, n, cons, d.queue(providertypes.SpawnTimeToConsumerIdsKeyPrefix()),
-		d.queue(providertypes.RemovalTimeToConsumerIdsKeyPrefix()))
+	return common.L(code, n, cons, sc.spawnq, sc.remq)
 }
 
-// residual classifies every key of the raw provider store: for each consumer the sorted set of key prefixes
-// under which something attributable to it exists.  Keys are attributed with the exported key constructors.
+// residual: for each consumer the sorted set of key prefixes under which something attributable to it exists in
+// the raw provider store (999 is added when some key could not be attributed at all).
 func (d *drv) residual() common.T {
-	n := d.nextID()
-	sets := make([]map[int64]bool, n)
-	exact := map[string][2]int64{}
-	for c := int64(0); c < n; c++ {
-		sets[c] = map[int64]bool{}
-		id := cid(c)
-		for _, key := range [][]byte{
-			providertypes.ConsumerIdToChannelIdKey(id), providertypes.ConsumerIdToClientIdKey(id),
-			providertypes.ConsumerGenesisKey(id), providertypes.SlashAcksKey(id), providertypes.InitChainHeightKey(id),
-			providertypes.PendingVSCsKey(id), providertypes.EquivocationEvidenceMinHeightKey(id),
-		} {
-			exact[string(key)] = [2]int64{c, int64(key[0])}
-		}
-	}
-	global := map[byte]bool{0xFF: true, 0: true, 2: true, 3: true, 4: true, 13: true, 26: true, 27: true, 42: true, 43: true,
-		51: true, 52: true, 59: true}
-	unknown := false
-	attribute := func(idStr string, p byte) {
-		c, err := strconv.ParseInt(idStr, 10, 64)
-		if err != nil || c < 0 || c >= n {
-			unknown = true
-			return
-		}
-		sets[c][int64(p)] = true
-	}
-	for key, val := range d.env.DumpStore() {
-		kb := []byte(key)
-		p := kb[0]
-		if e, ok := exact[key]; ok {
-			sets[e[0]][e[1]] = true
-			continue
-		}
-		switch {
-		case global[p]:
-		case p == providertypes.ChannelIdToConsumerIdKeyPrefix()[0], p == providertypes.ClientIdToConsumerIdKey("x")[0]:
-			attribute(val, p) // reverse indexes: the value is the consumer id
-		case len(kb) >= 9:
-			id, err := providertypes.ParseStringIdWithLenKey(p, kb)
-			if err != nil {
-				unknown = true
-			} else {
-				attribute(id, p)
-			}
-		default:
-			unknown = true
-		}
-	}
-	out := make([]common.T, n)
-	for c := int64(0); c < n; c++ {
+	sc := d.scanStore()
+	out := make([]common.T, len(sc.keys))
+	for c, keys := range sc.keys {
 		l := []int64{}
-		for p := range sets[c] {
+		for p := range keys {
 			l = append(l, p)
 		}
-		if unknown && c == 0 {
+		if sc.unknown && c == 0 {
 			l = append(l, 999)
 		}
 		sort.Slice(l, func(i, j int) bool { return l[i] < l[j] })
@@ -606,6 +619,12 @@ func TestDriver(t *testing.T) {
 		for _, raw := range k.Ops {
 			op, code := d.step(raw)
 			ops = append(ops, op)
+			// commit the IAVL working set: iterators over a tree with many unsaved keys are very slow
+			if d.nextID() > 40 {
+				if cms, ok := env.Ctx.MultiStore().(storetypes.CommitMultiStore); ok {
+					cms.Commit()
+				}
+			}
 			if tag, ok := op.([]common.T)[0].(int64); !ok || tag >= 0 {
 				obs = append(obs, d.observe(code))
 			}
